@@ -14,6 +14,9 @@ POLY.measure    CrossProduct, DotProduct, DistanceSqr, PerpendicDistFromLineSqrd
 
 What is decided is the real-number formula; floating-point rounding, overflow and the clamping branches are not.
 """
+import re
+from fractions import Fraction
+
 from ..astq import walk, kids, strip, qt, dqt, where, canon, if_parts
 from ..extract import AnalysisBroken
 from ..poly import Poly, Rat, PolyEval, Unsupported, _skip
@@ -871,4 +874,219 @@ def rule_segment_cases(db, chk, cfg, rule="POLY.intersect"):
                               where(c), cfg=cfg)
     if n < 5:
         raise AnalysisBroken("POLY.intersect: only %d touching cases / general calls recognised in GetSegmentIntersection" % n)
+    return n
+
+
+# ---------------------------------------------------------------------------
+# POLY.multiply: the 64x64 -> 128 bit product recombines its partial products correctly
+# ---------------------------------------------------------------------------
+
+class _BitEval(PolyEval):
+    """Normal forms over the integers with the two bit-slicing operations of Multiply: hi_K(x) = x >> K is an uninterpreted symbol of
+    x's normal form, lo_K(x) = x & (2^K - 1) is *defined* as x - 2^K hi_K(x); x << K is x 2^K; `(x << K) | lo_J(y)` with J <= K is a sum
+    (disjoint bits).  Valid as long as no intermediate wraps - which is what P.multiply-no-wrap decides."""
+
+    def __init__(self, db, lambdas):
+        PolyEval.__init__(self, db, extended=True)
+        self.lambdas = lambdas
+
+    def _slice(self, kind, K, arg):
+        v = self.ev(arg)
+        from ..poly import UFUNCS
+        sym = "hi%d(%r)" % (K, v)
+        UFUNCS[sym] = ("hi", [v])
+        h = Rat.var(sym)
+        return h if kind == "hi" else v - Rat.const(1 << K) * h
+
+    def _lam(self, e):
+        e0 = _skip(e)
+        if e0.get("kind") == "CXXOperatorCallExpr" and len(kids(e0)) == 3:
+            nm = _skip(kids(e0)[1]).get("referencedDecl", {}).get("name")
+            if nm in self.lambdas:
+                return self.lambdas[nm] + (kids(e0)[2],)
+        if e0.get("kind") == "BinaryOperator" and e0.get("opcode") in (">>", "&"):
+            r = _skip(kids(e0)[1])
+            if r.get("kind") == "IntegerLiteral":
+                c = int(r.get("value"))
+                if e0.get("opcode") == ">>":
+                    return ("hi", c, kids(e0)[0])
+                if c & (c + 1) == 0:
+                    return ("lo", c.bit_length(), kids(e0)[0])
+        return None
+
+    def ev(self, e):
+        e0 = _skip(e)
+        sl = self._lam(e0)
+        if sl is not None:
+            return self._slice(sl[0], sl[1], sl[2])
+        if e0.get("kind") == "BinaryOperator" and e0.get("opcode") == "<<":
+            r = _skip(kids(e0)[1])
+            if r.get("kind") == "IntegerLiteral":
+                return self.ev(kids(e0)[0]) * Rat.const(1 << int(r.get("value")))
+        if e0.get("kind") == "BinaryOperator" and e0.get("opcode") == "|":
+            l, r = _skip(kids(e0)[0]), _skip(kids(e0)[1])
+            for x, y in ((l, r), (r, l)):
+                sy = self._lam(y)
+                if x.get("kind") == "BinaryOperator" and x.get("opcode") == "<<" and _skip(kids(x)[1]).get("kind") == "IntegerLiteral" and \
+                        sy is not None and sy[0] == "lo" and sy[1] <= int(_skip(kids(x)[1]).get("value")):
+                    return self.ev(x) + self.ev(y)
+            raise Unsupported("`|` of operands that are not provably bit-disjoint")
+        return PolyEval.ev(self, e0)
+
+
+def rule_multiply(db, chk, cfg, rule="POLY.multiply"):
+    """Multiply(a, b) returns {lo, hi} with hi 2^64 + lo == a b, as an identity over the integers in a, b and the (uninterpreted) upper
+    halves of the intermediates - every return of the function, fast paths included."""
+    f = db.one("Multiply")
+    a, b = _pname(f, 0), _pname(f, 1)
+    rec = None
+    for r in db.records.values() if hasattr(db, "records") else []:
+        pass
+    lambdas = {}
+    for d in [d for s in walk(f.body) if s.get("kind") == "DeclStmt" for d in kids(s) if d.get("kind") == "VarDecl"]:
+        lam = [x for x in walk(d) if x.get("kind") == "LambdaExpr"]
+        if not lam:
+            continue
+        meth = [x for x in walk(lam[0]) if x.get("kind") == "CXXMethodDecl" and x.get("name") == "operator()"]
+        if not meth:
+            continue
+        prm = [c for c in kids(meth[0]) if c.get("kind") == "ParmVarDecl"]
+        body = [c for c in kids(meth[0]) if c.get("kind") == "CompoundStmt"]
+        rets = [x for x in walk(body[0]) if x.get("kind") == "ReturnStmt"] if body else []
+        if len(prm) != 1 or len(rets) != 1:
+            continue
+        r0 = _skip(kids(rets[0])[0])
+        if r0.get("kind") == "BinaryOperator" and _skip(kids(r0)[0]).get("kind") == "DeclRefExpr" and _skip(kids(r0)[1]).get("kind") == "IntegerLiteral":
+            c = int(_skip(kids(r0)[1]).get("value"))
+            if r0.get("opcode") == ">>":
+                lambdas[d.get("name")] = ("hi", c)
+            elif r0.get("opcode") == "&" and c & (c + 1) == 0:
+                lambdas[d.get("name")] = ("lo", c.bit_length())
+    n = 0
+    pe = _BitEval(db, lambdas)
+    rets = []
+
+    def on_return(ev, v, s):
+        v0 = _skip(v)
+        while v0.get("kind") in ("CXXConstructExpr", "CXXTemporaryObjectExpr", "CXXFunctionalCastExpr") and len([k for k in kids(v0) if isinstance(k, dict) and k.get("kind")]) == 1:
+            v0 = _skip([k for k in kids(v0) if isinstance(k, dict) and k.get("kind")][0])
+        args = [k for k in kids(v0) if isinstance(k, dict) and k.get("kind")]
+        if v0.get("kind") not in ("InitListExpr", "CXXConstructExpr", "CXXTemporaryObjectExpr") or len(args) != 2:
+            rets.append((None, "return value is not a {lo, hi} pair", s))
+            return
+        try:
+            rets.append(((ev.ev(args[0]), ev.ev(args[1])), None, s))
+        except Unsupported as e:
+            rets.append((None, str(e), s))
+    pe.on_return = on_return
+    pe.bind_block(f.body)
+    if not rets:
+        raise AnalysisBroken("POLY.multiply: Multiply has no return")
+    # field order of the result type: lo first
+    rt = [r for r in (db.find_record("UInt128Struct") if hasattr(db, "find_record") else [])]
+    try:
+        fields = [fd.get("name") for fd in db.record("UInt128Struct").fields]
+    except Exception:
+        fields = ["lo", "hi"]
+    if fields[:2] not in (["lo", "hi"], ["hi", "lo"]):
+        raise AnalysisBroken("POLY.multiply: UInt128Struct is no longer {lo, hi}")
+    for val, err, node in rets:
+        n += 1
+        if val is None:
+            raise AnalysisBroken("POLY.multiply: a return of Multiply is not bit-arithmetic this rule can normalise: %s" % err)
+        lo, hi = (val[0], val[1]) if fields[0] == "lo" else (val[1], val[0])
+        d = hi * Rat.const(1 << 64) + lo - V(a) * V(b)
+        ok = d.is_zero()
+        chk.instance(rule, {"function": f.qual, "return": where(node), "obligation": "hi * 2^64 + lo == a * b", "cfg": cfg}, ok=ok)
+        if not ok:
+            chk.violation(rule, f.qual, "recombine@%s" % node.get("line"), "Multiply returns {lo, hi} with hi 2^64 + lo - a b == %s (must vanish identically): the partial products are "
+                          "recombined wrongly" % _short(d, 140), where(node), cfg=cfg)
+    return n
+
+
+# ---------------------------------------------------------------------------
+# POLY.area: the terms Area accumulates
+# ---------------------------------------------------------------------------
+
+def rule_area_terms(db, chk, cfg, rule="POLY.area"):
+    """Area(path) accumulates, for consecutive vertices (prev, cur), the trapezoid term (prev.y + cur.y)(prev.x - cur.x) - whose sum over the
+    ring is twice the shoelace area, the products x_i y_i telescoping away - and returns half the sum.  Every `a += E` of the function:
+    E's normal form over the two vertices it reads is that term (for the pair in the order the iterator arithmetic puts them: after
+    `q = p + 1` q follows p, after `p += 2` p follows q, initially the first vertex follows the last); the return is a / 2.  A loop
+    written in another style is not judged (reported as such in the evidence), never a violation."""
+    n = 0
+    for f in [g for g in db.find("Area") if not g.is_pattern and g.body is not None and len(g.params) == 1 and "Paths" not in g.sig and "vector<vector" not in (dqt(g.params[0]) or "")]:
+        accs = [x for x in walk(f.body) if x.get("kind") == "CompoundAssignOperator" and x.get("opcode") == "+="]
+        if not accs:
+            chk.instance(rule, {"function": f.qual, "sig": f.sig[:50], "judged": "no accumulation of the form `a += E` found", "cfg": cfg}, ok=True)
+            continue
+        # iterator order tracker over the statements of the function in source order
+        order = None                       # (prev, cur) names
+        decl_txt = " ; ".join(canon(s) for s in kids(f.body) if s.get("kind") == "DeclStmt")
+        m_last = re.search(r"(\w+) = \(?\w+\.c?end\(\) - 1\)?", decl_txt)
+        seq = []
+        for x in walk(f.body):
+            if x.get("kind") in ("BinaryOperator", "CompoundAssignOperator", "CXXOperatorCallExpr"):
+                t = canon(x)
+                m = re.match(r"^\((\w+) = \w+\.c?begin\(\)\)$", t)
+                if m and m_last and m.group(1) != m_last.group(1):
+                    seq.append(("init", m_last.group(1), m.group(1), x))
+                m = re.match(r"^\((\w+) = \((\w+) \+ 1\)\)$", t)
+                if m:
+                    seq.append(("succ", m.group(2), m.group(1), x))
+                m = re.match(r"^\((\w+) \+= 2\)$", t)
+                if m:
+                    seq.append(("skip", m.group(1), None, x))
+            if x.get("kind") == "CompoundAssignOperator" and x.get("opcode") == "+=" and x in accs:
+                seq.append(("acc", None, None, x))
+        pe = PolyEval(db, extended=True)
+        judged = 0
+        for kind, p1, p2, node in seq:
+            if kind == "init":
+                order = (p1, p2)
+            elif kind == "succ":
+                order = (p1, p2)
+            elif kind == "skip":
+                order = (order[1], order[0]) if order and order[0] == p1 else None
+            elif kind == "acc":
+                if canon(kids(node)[1]) in ("2", "1"):
+                    continue
+                try:
+                    E = pe.ev(kids(node)[1])
+                except Unsupported:
+                    chk.instance(rule, {"function": f.qual, "term": canon(node)[:60], "judged": "not arithmetic over two vertices", "cfg": cfg}, ok=True)
+                    continue
+                bases = sorted({v.rsplit(".", 1)[0] for v in E.vars() if v.endswith((".x", ".y"))})
+                if len(bases) != 2 or any(not v.endswith((".x", ".y")) for v in E.vars()):
+                    chk.instance(rule, {"function": f.qual, "term": canon(node)[:60], "judged": "does not read exactly two vertices", "cfg": cfg}, ok=True)
+                    continue
+                def term(P, Q):
+                    return (V(P + ".y") + V(Q + ".y")) * (V(P + ".x") - V(Q + ".x"))
+                if order is not None and set(order) == set(bases):
+                    want, how = term(order[0], order[1]), "(%s.y + %s.y)(%s.x - %s.x), %s being the vertex before %s" % (order[0], order[1], order[0], order[1], order[0], order[1])
+                    ok = E.same(want)
+                else:
+                    how = "the trapezoid term of its two vertices (order not derived)"
+                    ok = E.same(term(bases[0], bases[1])) or E.same(term(bases[1], bases[0]))
+                n += 1
+                judged += 1
+                chk.instance(rule, {"function": f.qual, "sig": f.sig[:50], "term": canon(node)[:70], "cfg": cfg}, ok=ok)
+                if not ok:
+                    chk.violation(rule, f.qual, "%s|%s" % (f.sig[:30], canon(node)[:30]), "Area accumulates %s; the shoelace sum needs %s" % (_short(E, 80), how), where(node), cfg=cfg)
+        # the result is half the accumulated sum
+        rets = [r for r in kids(f.body) if r.get("kind") == "ReturnStmt" and kids(r)]
+        if rets and judged:
+            acc_var = _skip(kids(accs[0])[0])
+            pr = PolyEval(db, extended=True)
+            if acc_var.get("kind") == "DeclRefExpr":
+                pr.env[acc_var["referencedDecl"]["id"]] = V("<sum>")
+                try:
+                    r = pr.ev(kids(rets[-1])[0])
+                    n += 1
+                    ok = r.same(V("<sum>") * Rat.const(Fraction(1, 2)))
+                    chk.instance(rule, {"function": f.qual, "sig": f.sig[:50], "obligation": "returns half the accumulated sum", "cfg": cfg}, ok=ok)
+                    if not ok:
+                        chk.violation(rule, f.qual, "%s|half" % f.sig[:30], "Area returns %s of the accumulated trapezoid sum; the shoelace area is half of it" % _short(r, 40), where(rets[-1]), cfg=cfg)
+                except Unsupported:
+                    pass
     return n
